@@ -257,6 +257,13 @@ func (s *Scanner) AddSignatures(sigs []detection.Signature) error {
 		}
 
 		s.db.Signatures = append(s.db.Signatures, *sig)
+
+		// Update the map index, exactly as AddSignature does; without it a
+		// batch-added signature cannot be fetched back by its ID.
+		if s.sigMap == nil {
+			s.sigMap = make(map[string]int)
+		}
+		s.sigMap[sig.ID] = len(s.db.Signatures) - 1
 	}
 	return nil
 }
